@@ -120,144 +120,98 @@ Proof. vm_compute. reflexivity. Qed.
 
 (* ============================ access-log lines ============================================== *)
 
-(* One line per entry: for every rule table, request path, handler script that returns
-   (whatever it wrote, whatever status it returned) and every writer behaviour, the matching
-   rule writes exactly one line for each of its entries that does not except the path, none for
-   the others, and all lines carry the same status and size. *)
+(* One line per entry of every matching rule: for every rule table, request path, handler script
+   (whatever it wrote, whatever status it returned, panics included) and every writer
+   behaviour, the middleware writes exactly one line for each entry of each rule whose scope
+   contains the path and which does not except it, none for the others, and all lines carry the
+   same status and size; a panic of the handler gets past the middleware only when the request
+   is outside every scope. *)
 Theorem C20_one_line_per_entry :
-  forall c cs tbl ek rules path ops ret u r,
-  find (fun r => path_matches cs path (ru_scope r)) rules = Some r ->
-  no_panic ops = true ->
-  NoDup (map n_id (ru_entries r)) ->
+  forall c cs tbl ek rules path ops ret u,
+  NoDup (map n_id (flat_map ru_entries rules)) ->
   let '(_, _, p, lines) := log_serve c cs tbl ek rules path ops ret u in
-  p = false /\
-  (forall e, In e (ru_entries r) ->
-     count_id (n_id e) lines = if should_log cs (n_except e) path then 1%nat else 0%nat) /\
-  (forall i, ~ In i (map n_id (ru_entries r)) -> count_id i lines = 0%nat) /\
-  (exists st sz, forall l, In l lines -> snd (fst l) = st /\ snd l = sz).
+  (forall r e, In r rules -> In e (ru_entries r) ->
+     count_id (n_id e) lines =
+     if path_matches cs path (ru_scope r) && should_log cs (n_except e) path then 1%nat else 0%nat) /\
+  (forall i, ~ In i (map n_id (flat_map ru_entries rules)) -> count_id i lines = 0%nat) /\
+  (exists st sz, forall l, In l lines -> snd (fst l) = st /\ snd l = sz) /\
+  (p = true -> forall r, In r rules -> path_matches cs path (ru_scope r) = false).
 Proof. exact one_line_per_entry. Qed.
 Print Assumptions C20_one_line_per_entry.
 
 (* Per configured log (the statement of the property): [counts_ok] = every log directive gets
    exactly one line iff the request is inside its scope and not excepted by its own except
-   list.  It holds for every site whose log directives share one scope and where only the last
-   one has an except list — for every request, every handler outcome when an errors directive
-   is present (panics included), every returning handler otherwise. *)
-Theorem C20_one_line_per_log_partial :
-  forall c cs tbl (haserr hdrw : bool) sc ds path ops ret,
-  uniform_scope sc ds -> exc_only_last ds -> (haserr = true \/ no_panic ops = true) ->
+   list.  It holds for EVERY list of log directives — same or different scopes, nested or
+   overlapping, any except lists — for every request and EVERY handler outcome, with or without
+   an errors directive: a panicking handler included (the log middleware turns the panic into
+   the 500 the client is answered with).  F-C20-1, F-C20-3 and F-C20-4 repaired. *)
+Theorem C20_one_line_per_log :
+  forall c cs tbl (haserr hdrw : bool) ds path ops ret,
   counts_ok cs ds 0 path (snd (site_serve c cs tbl haserr hdrw ds path ops ret)) = true.
-Proof. exact site_one_line_per_log_partial. Qed.
-Print Assumptions C20_one_line_per_log_partial.
+Proof. exact site_one_line_per_log. Qed.
+Print Assumptions C20_one_line_per_log.
 
-Example C20_one_line_per_log_partial_nonvacuous :
+(* the former refutation witnesses: `log /a a.log` + `log / b.log`, GET /a/x (F-C20-3) gets its
+   line in both logs; `log / a.log { except /x }` + `log / b.log`, GET /x (F-C20-4) gets its line
+   in b.log; a panic without an errors directive (F-C20-1) is answered with 500 and logged as
+   such; with errors, the errors directive writes the 500 and it is logged likewise *)
+Example C20_one_line_per_log_witnesses :
+  snd (site_serve {| w_nethttp := true; w_head := false |} false [(404%Z, 14)] true false
+         [ {| d_scope := bs "/a"; d_except := [] |}; {| d_scope := bs "/"; d_except := [] |} ]
+         (bs "/a/x") [] 404%Z)
+  = [(0%nat, 404%Z, 14); (1%nat, 404%Z, 14)] /\
+  snd (site_serve {| w_nethttp := true; w_head := false |} false [(404%Z, 14)] true false
+         [ {| d_scope := bs "/"; d_except := [bs "/x"] |}; {| d_scope := bs "/"; d_except := [] |} ]
+         (bs "/x") [] 404%Z)
+  = [(1%nat, 404%Z, 14)] /\
+  site_serve {| w_nethttp := true; w_head := false |} false [(500%Z, 26)] false false
+         [ {| d_scope := bs "/"; d_except := [] |} ] (bs "/x") [OPanic] 0%Z
+  = (500%Z, 26, [(0%nat, 500%Z, 26)]) /\
   snd (site_serve {| w_nethttp := true; w_head := false |} false [(404%Z, 14); (500%Z, 26)] true false
-         [ {| d_scope := bs "/a"; d_except := [] |}; {| d_scope := bs "/a"; d_except := [bs "/a/b"] |} ]
+         [ {| d_scope := bs "/a"; d_except := [bs "/a/x"] |}; {| d_scope := bs "/a"; d_except := [bs "/a/b"] |} ]
          (bs "/a/x") [OPanic] 0%Z)
-  = [(0%nat, 500%Z, 26); (1%nat, 500%Z, 26)].
-Proof. vm_compute. reflexivity. Qed.
+  = [(1%nat, 500%Z, 26)].
+Proof. vm_compute. repeat split; reflexivity. Qed.
 
-(* The unrestricted statement is false of the code, three ways: *)
-(* (a) only the FIRST rule whose scope matches is served: a second log directive with another
-       scope that also contains the request gets no line *)
-Theorem C20_one_line_per_log_overlap_refuted :
-  exists ds path ops ret,
-  no_panic ops = true /\
-  counts_ok false ds 0 path
-    (snd (site_serve {| w_nethttp := true; w_head := false |} false [(404%Z, 14)] true false ds path ops ret)) = false.
-Proof.
-  exists [ {| d_scope := bs "/a"; d_except := [] |}; {| d_scope := bs "/"; d_except := [] |} ],
-         (bs "/a/x"), [], 404%Z.
-  vm_compute. split; reflexivity.
-Qed.
-Print Assumptions C20_one_line_per_log_overlap_refuted.
-
-(* (b) the except list is shared: a later log directive inherits the exceptions of the earlier ones *)
-Theorem C20_one_line_per_log_except_refuted :
-  exists sc ds path ops ret,
-  uniform_scope sc ds /\ no_panic ops = true /\
-  counts_ok false ds 0 path
-    (snd (site_serve {| w_nethttp := true; w_head := false |} false [(404%Z, 14)] true false ds path ops ret)) = false.
-Proof.
-  exists (bs "/"),
-         [ {| d_scope := bs "/"; d_except := [bs "/x"] |}; {| d_scope := bs "/"; d_except := [] |} ],
-         (bs "/x"), [], 404%Z.
-  split; [|vm_compute; split; reflexivity].
-  intros d [<-|[<-|[]]]; reflexivity.
-Qed.
-Print Assumptions C20_one_line_per_log_except_refuted.
-
-(* (c) without an errors directive a panicking handler is answered (500 by the server's own
-       recover) but not logged *)
-Theorem C20_panic_logged_refuted :
-  exists ds path ops ret,
-  site_serve {| w_nethttp := true; w_head := false |} false [(500%Z, 26)] false false ds path ops ret
-  = (500%Z, 26, []) /\ counts_ok false ds 0 path [] = false.
-Proof.
-  exists [ {| d_scope := bs "/"; d_except := [] |} ], (bs "/x"), [OPanic], 0%Z.
-  vm_compute. split; reflexivity.
-Qed.
-Print Assumptions C20_panic_logged_refuted.
-
-(* Status and size are exact: for every handler that honours the writer contract (at most one
-   WriteHeader, before the first Write — the error response the middleware or the errors
-   directive adds included), on a GET-like request, every line carries the status the
+(* Status and size are exact, for EVERY request method and EVERY handler script —
+   contract-breaking ones included: a second WriteHeader, a WriteHeader after the first Write, a
+   written response followed by an error status (the middleware's own fallback WriteHeader then
+   comes too late), a panic after a partial response.  Every line carries the status the
    underlying writer committed and the number of body bytes it delivered: failed writes are not
-   counted, the fallback error body is. *)
-Theorem C20_logged_status_size_exact_partial :
+   counted, the fallback error body is, and for a HEAD request — whose body net/http accepts
+   and drops — the size is 0.  ([head_ok]: a HEAD request is answered through a writer that
+   sends no body, which holds for every net/http writer; [final_codes]: no 1xx informational
+   WriteHeader, which the writer model does not cover.) *)
+Theorem C20_logged_status_size_exact :
   forall c cs tbl ek rules path ops ret,
-  w_head c = false -> no_panic ops = true -> wb (ops ++ fallback tbl ek ret) = true ->
+  head_ok c = true -> final_codes ops = true ->
   let '(u', _, _, lines) := log_serve c cs tbl ek rules path ops ret uw0 return Prop in
   forall l, In l lines -> snd (fst l) = client_status u' /\ snd l = u_size u'.
 Proof. exact logged_exact. Qed.
-Print Assumptions C20_logged_status_size_exact_partial.
+Print Assumptions C20_logged_status_size_exact.
 
-(* the same for a whole request through the site (errors directive and the server's own
-   fallback included): the lines equal what the client sees *)
-Theorem C20_site_logged_exact_partial :
+(* the same for a whole request through the site, whatever sits between log and the handler
+   (errors directive, header directive) and the server's own fallback included: the lines
+   equal what the client sees *)
+Theorem C20_site_logged_exact :
   forall c cs tbl (haserr hdrw : bool) ds path ops ret,
-  w_head c = false ->
-  let flat := inner_flat tbl haserr hdrw ops ret in
-  no_panic (fst flat) = true -> wb (fst flat ++ fallback tbl 1 (snd flat)) = true ->
+  head_ok c = true -> final_codes ops = true ->
   let '(st, sz, lines) := site_serve c cs tbl haserr hdrw ds path ops ret return Prop in
   forall l, In l lines -> snd (fst l) = st /\ snd l = sz.
 Proof. exact site_logged_exact. Qed.
-Print Assumptions C20_site_logged_exact_partial.
+Print Assumptions C20_site_logged_exact.
 
-Example C20_site_logged_exact_partial_nonvacuous :
+(* the former refutation witnesses now log what the client got (F-C20-5: the recorder kept the
+   LAST WriteHeader argument; F-C20-2: for HEAD the error body was counted but never sent) *)
+Example C20_site_logged_exact_nonvacuous :
   site_serve {| w_nethttp := true; w_head := false |} false [(404%Z, 14)] false false
     [ {| d_scope := bs "/"; d_except := [] |} ] (bs "/x") [] 404%Z = (404%Z, 14, [(0%nat, 404%Z, 14)]) /\
   site_serve {| w_nethttp := true; w_head := false |} false [] true false
-    [ {| d_scope := bs "/"; d_except := [] |} ] (bs "/x") [OWH 204%Z; OW 5 None] 0%Z = (204%Z, 0, [(0%nat, 204%Z, 0)]).
-Proof. vm_compute. split; reflexivity. Qed.
-
-(* with an errors directive and a header directive between log and the handler, the lines are
-   exact for EVERY handler script, contract-breaking and panicking ones included: errors turns
-   panics and error statuses into written responses and header's writer drops repeated
-   WriteHeader calls before they reach the recorder *)
-Theorem C20_site_exact_with_errors_and_header :
-  forall c cs tbl ds path ops ret,
-  w_head c = false ->
-  let '(st, sz, lines) := site_serve c cs tbl true true ds path ops ret return Prop in
-  forall l, In l lines -> snd (fst l) = st /\ snd l = sz.
-Proof. exact site_exact_with_errors_and_header. Qed.
-Print Assumptions C20_site_exact_with_errors_and_header.
-
-(* without the contract the status is not exact: the recorder keeps the LAST WriteHeader
-   argument, the client got the first *)
-Theorem C20_logged_status_exact_refuted :
-  exists ops ret,
-  no_panic ops = true /\
+    [ {| d_scope := bs "/"; d_except := [] |} ] (bs "/x") [OWH 204%Z; OW 5 None] 0%Z = (204%Z, 0, [(0%nat, 204%Z, 0)]) /\
   site_serve {| w_nethttp := true; w_head := false |} false [] false false
-    [ {| d_scope := bs "/"; d_except := [] |} ] (bs "/x") ops ret = (200%Z, 3, [(0%nat, 500%Z, 3)]).
-Proof. exists [OWH 200%Z; OW 3 None; OWH 500%Z], 0%Z. vm_compute. split; reflexivity. Qed.
-Print Assumptions C20_logged_status_exact_refuted.
-
-(* and for HEAD requests the size is not exact: the error body is counted but never sent *)
-Theorem C20_logged_size_head_refuted :
-  exists ops ret,
-  wb (ops ++ fallback [(404%Z, 14)] 1 ret) = true /\
+    [ {| d_scope := bs "/"; d_except := [] |} ] (bs "/x") [OWH 200%Z; OW 3 None; OWH 500%Z] 0%Z = (200%Z, 3, [(0%nat, 200%Z, 3)]) /\
+  site_serve {| w_nethttp := true; w_head := false |} false [(500%Z, 26)] false false
+    [ {| d_scope := bs "/"; d_except := [] |} ] (bs "/x") [OW 3 None] 500%Z = (200%Z, 29, [(0%nat, 200%Z, 29)]) /\
   site_serve {| w_nethttp := true; w_head := true |} false [(404%Z, 14)] false false
-    [ {| d_scope := bs "/"; d_except := [] |} ] (bs "/x") ops ret = (404%Z, 0, [(0%nat, 404%Z, 14)]).
-Proof. exists [], 404%Z. vm_compute. split; reflexivity. Qed.
-Print Assumptions C20_logged_size_head_refuted.
+    [ {| d_scope := bs "/"; d_except := [] |} ] (bs "/x") [] 404%Z = (404%Z, 0, [(0%nat, 404%Z, 0)]).
+Proof. vm_compute. repeat split; reflexivity. Qed.
